@@ -25,10 +25,10 @@ TARGETS = [{"path": "a"}, {"path": "b", "uses": ["a/f"]}, {"path": "c"}]
 NSLOTS = 2
 
 
-def session_cfg(depth, crashes=2, nprocs=2):
+def session_cfg(depth, crashes=2, nprocs=2, script=0):
     return ('CONSTANTS Procs = {%s}\n Paths = {"af", "bf", "cf"}\n Cfg <- MCCfg\n Comp <- MCComp\n N = %d\n MaxRuns = 5\n'
-            ' MaxCommits = 3\n MaxEdits = 8\n EmitDepth = %d\n MaxCrashes = %d\nSPECIFICATION SSpec\nINVARIANTS Emit SessionInv\n'
-            'CHECK_DEADLOCK FALSE\n') % (", ".join(str(i + 1) for i in range(nprocs)), NSLOTS, depth, crashes)
+            ' MaxCommits = 3\n MaxEdits = 8\n EmitDepth = %d\n MaxCrashes = %d\n ScriptId = %d\nSPECIFICATION SSpec\nINVARIANTS Emit SessionInv\n'
+            'CHECK_DEADLOCK FALSE\n') % (", ".join(str(i + 1) for i in range(nprocs)), NSLOTS, depth, crashes, script)
 
 
 def content(c):
@@ -401,20 +401,29 @@ class Replay:
         self.compare_state(fx, h, i, after_loser, after_run_crash)
 
 
+NSCRIPTS = 4
+
+
 def generate(chk, n, depth, seed, crashes=2, nprocs=2):
-    r = vlib.tlc("mc/MCSession", session_cfg(depth, crashes, nprocs), workers=1, timeout=900, simulate="num=%d" % n,
-                 extra=["-depth", str(depth + 1), "-seed", str(seed)])
-    if r.violated:
-        chk.model_violation("MCSession", r)
+    """n behaviours: a share of them begins with each directed prefix (mc/MCSession.tla, Script), the rest is free."""
+    per_script = max(1, n // 8)
+    plan = [(k, per_script) for k in range(1, NSCRIPTS + 1)] + [(0, max(1, n - NSCRIPTS * per_script))]
+    jobs = [dict(module="mc/MCSession", cfg_text=session_cfg(depth, crashes if k != 0 else crashes, nprocs, k), workers=1, timeout=900,
+                 simulate="num=%d" % m, extra=["-depth", str(depth + 1), "-seed", str(seed + 17 * k)]) for k, m in plan]
     behs, seen = [], set()
-    for b in r.printed("BEH"):
-        key = json.dumps(b["hist"], sort_keys=True)
-        if key not in seen:
-            seen.add(key)
-            behs.append(b["hist"])
-    if len(behs) < max(1, n // 2):
-        raise vlib.ToolError("too few simulated session behaviours: %d" % len(behs))
-    return behs[:n]
+    for (k, m), r in zip(plan, vlib.tlc_parallel(jobs)):
+        if r.violated:
+            chk.model_violation("MCSession", r)
+        got = []
+        for b in r.printed("BEH"):
+            key = json.dumps(b["hist"], sort_keys=True)
+            if key not in seen:
+                seen.add(key)
+                got.append(b["hist"])
+        if len(got) < max(1, m // 2):
+            raise vlib.ToolError("too few simulated session behaviours (script %d): %d" % (k, len(got)))
+        behs += got[:m]
+    return behs
 
 
 def replay_all(bins, behs, workers=8):
